@@ -99,6 +99,13 @@ CHECKS = {
          "The Mach/IAS rule is judged only where the CAS table decides it within 0.05 kt (else either verdict accepted); is50or60 is judged "
          "only with alt_ref = 0 and references that make the nearest interpretation decidable without trigonometry.",
          "DESIGN.md section 5 C12"),
+ "C14": ("the documented domain of every decoder is part of its TLA+ verdict operator (Guard/T29/SurvGuard ... in spec/TV_*.tla); every "
+         "DF x TC x subtype x length cell with five payload fillings is replayed through every exported callable and tell(), and TLC "
+         "judges each outcome (value of the right shape inside the domain, RuntimeError outside, no other exception)",
+         "All 32 DF cells and, for DF17/18, all 32 x 8 TC x subtype cells x 5 (quick: 2) fillings x ~95 callables, plus seeded random frames.",
+         "Well-formed = length consistent with DF; 28-hexdigit functions are not judged on 14-digit input; functions documented without a "
+         "DF/TC domain are judged for totality only; TC29 reserved subtypes 2-3 may be refused or decoded.",
+         "DESIGN.md section 5 C14"),
 }
 
 PENDING = {}
